@@ -32,6 +32,10 @@ package values
 
 //@ lemma join_sym [C09] (a reflect.Kind, b reflect.Kind): values.joinKind(a, b) == values.joinKind(b, a)
 
+// A Range spanning more than MaxInt64 elements would overflow Len; such ranges are
+// excluded by this invariant (assumed at method entry, checked where a Range is published).
+//@ typeinv values.Range: in_i64(self.e - self.b + 1) && in_i64(self.b) && in_i64(self.e)
+
 //@ func (values.Range).Len
 //@ pure
 //@ props C11 C01
